@@ -15,7 +15,7 @@ for p in props:
     pid = p["id"]
     mods = glob.glob(os.path.join(ROOT, "props", pid.lower() + "*.py"))
     if not mods or pid not in READY:
-        na.append(dict(property_id=pid, reason="check not built yet (see DESIGN.md section 2 for the plan); not claimed"))
+        na.append(dict(property_id=pid, reason="module still being completed at the time of this commit (generator/oracle per DESIGN.md section 2); not claimed until it has been run quiet on the unchanged tree"))
         continue
     src = open(mods[0]).read()
     ns = {}
